@@ -220,6 +220,18 @@ end
 
 /-! ## The emitted expression -/
 
+/-- an ASCII identifier: `[A-Za-z_][A-Za-z0-9_]*` -/
+def asciiIdent : Str → Bool
+  | [] => false
+  | c :: r =>
+    let letter (c : Char) : Bool := (65 ≤ c.toNat && c.toNat ≤ 90) || (97 ≤ c.toNat && c.toNat ≤ 122) || c = '_'
+    letter c && r.all fun d => letter d || (48 ≤ d.toNat && d.toNat ≤ 57)
+
+/-- can `Cls.<name>` be written and mean the member?  The model covers ASCII
+identifiers that are not keywords (`E.a-b` is a subtraction, `E.class` a syntax
+error; non-ASCII identifiers are left to the interpreter) -/
+def enumNameOK (m : Str) : Bool := asciiIdent m && !Tables.pyKeywords.contains m
+
 /-- the four types `collections.is_array` accepts and `repr_array` renders -/
 inductive ArrKind
   | list
@@ -832,7 +844,9 @@ def eval (W : World) (env : Env) : PyExpr → Except Err Val
     | .error e => .error e
     | .ok r =>
       match W.find r with
-      | some ⟨_, .enum ms⟩ => if ms.contains m then .ok (.enum r m) else .error .attributeError
+      | some ⟨_, .enum ms⟩ =>
+        if !enumNameOK m then .error .unmodelled   -- `Cls.<m>` is not an attribute reference
+        else if ms.contains m then .ok (.enum r m) else .error .attributeError
       | some ⟨_, .model fs⟩ =>
         -- class attribute: a field default or a nested class would be found
         if fs.any (fun f => f.name == m) || (W.find ⟨r.module, r.path ++ [m]⟩).isSome
@@ -886,6 +900,7 @@ mutual
 /-- does compiling the text depend on string-literal decoding this model does
 not cover (then the compile-time `SyntaxError` would pre-empt everything) -/
 def PyExpr.syntaxRisk : PyExpr → Bool
+  | .enumRef _ m => !enumNameOK m
   | .lit (.str _ _) t _ => (decodeStrLit t).isNone
   | .lit (.bytes _ _ _) t _ => (decodeBytesLit t).isNone
   | .qnameCall t => (decodeDq .normal (jsonBody t)).isNone
